@@ -178,6 +178,24 @@ def apply_special(fmt, obj, name, k):
     return None
 
 
+def exercise_helpers(value):
+    """the value is first passed through public helpers that only compute something from it - ids, predicates, parsers.
+    Whatever they answer, they must not make the value acceptable as a field value afterwards (enumeration tables and
+    patterns are not extended behind the caller's back)"""
+    import productmd.common as c
+    import productmd.composeinfo as ci
+    if not isinstance(value, str):
+        return
+    for fn in (lambda: c.create_release_id("rhel", "7", value), lambda: c.create_release_id("rhel", value, "ga"), lambda: c.create_release_id(value, "7", "ga"),
+               lambda: c.create_release_id("rhel", "7", "ga", "base", "1", value), lambda: c.is_valid_release_type(value), lambda: c.is_valid_release_version(value),
+               lambda: c.parse_release_id("rhel-7-" + value), lambda: ci.verify_label(value), lambda: ci.get_date_type_respin("F-22-20160622." + value + ".1"),
+               lambda: c.parse_nvra(value), lambda: c.split_version(value)):
+        try:
+            fn()
+        except Exception:  # noqa
+            pass
+
+
 def corrupt_and_dump(fmt, desc, corruption, via_file=False, validated_first=False):
     obj = must("build-valid-object", build, fmt, desc)
     if validated_first:
@@ -191,6 +209,7 @@ def corrupt_and_dump(fmt, desc, corruption, via_file=False, validated_first=Fals
             return None
         path, inst, depth = targets[corruption["target"] % len(targets)]
         value = values[corruption["value"] % len(values)]
+        exercise_helpers(value)
         current = getattr(inst, field)
         if corruption.get("in_place") and type(current) is type(value) and isinstance(current, (dict, list, set)):
             # same container object, emptied / refilled in place (an observer comparing object identity sees no change)
